@@ -109,6 +109,7 @@ B('C07.trailing-comma-in-name-list-accepted', ['C07', 'C16'], [(P + 'common/pars
 B('C18.media-subtype-case-kept', ['C18'], [(P + 'common/field.py', "        return FieldValueMimeType(parser['type'].lower(), parser['registry']), parser.parsed_length", "        return FieldValueMimeType(parser['type'], parser['registry']), parser.parsed_length")], mention='C18.R10')
 B('C18.media-type-registry-case-sensitive', ['C18'], [(P + 'common/field.py', "        return MimeTypeRegistry(value.lower())", "        return MimeTypeRegistry(value)")], mention='C18.R10')
 B('C18.csp-keywords-case-sensitive', ['C18'], [(P + 'httpx/header.py', "class ContentSecurityPolicySourceKeyword(StringEnumCaseInsensitiveParsable, enum.Enum):", "class ContentSecurityPolicySourceKeyword(StringEnumParsable, enum.Enum):")], mention='C18.R11')
+B('C08.dnskey-coordinate-width-from-key-size', ['C05', 'C08'], [(P + 'dnsrec/record.py', "        key_size = key_params.named_group.value.size // 8\n", "        key_size = key.key_size // 8\n")], mention='record[compose]')
 B('C02.unsupported-width', ['C02'], [(P + 'tls/extension.py', "        parser.parse_numeric('record_size_limit', 2)", "        parser.parse_numeric('record_size_limit', 5)")], props=['C02'])
 B('C02.raw-index', ['C02'], [(P + 'tls/extension.py', "        if parser['extension_data']:\n            raise InvalidValue(parser['extension_data'], cls)",
                              "        if parser['extension_data'][0]:\n            raise InvalidValue(parser['extension_data'], cls)")])
